@@ -17,7 +17,7 @@ import (
 
 func init() {
 	sw.SetWriteConflict(sumdb.ErrWriteConflict)
-	pbt.Describe("world = tile height H in {1,2,3,4,8}, a log of N records (go.sum line groups for generated module@version incl. upper-case paths, /go.mod lines and the pair go.sum@database whose prefix matches a line of the tree note), a real Ed25519 server key held only by the harness, the server's head at size S<=N, the client's stored head in {empty, signed head of size s0<=S}, cache prefill in {empty, authentic half, everything}. history = 1-5 lookups (existing, missing, repeated, with and without /go.mod) with optional client restarts sharing config and cache. fault plan = 0-3 faults, each bound to a resource the fault-free run requested (lookup response, tile, cached lookup file, cached tile, stored head) and its n-th occurrence: bit flip, truncation, extension, empty, garbage, I/O error, swap with another authentic resource of the same kind (other record, neighbouring/parent/child tile, same tile other width), stale replay (older genuine head with the record, or a genuine head that does not contain it), dropped signature, duplicated line, forged record with its leaf hash placed in an otherwise genuine level-0 tile, forged chain of recomputed parent tiles up to a generated level. Oracle (ground truth, not the code): a successful lookup returns only lines of the genuine record for that module@version, and exactly those lines when every byte delivered for it was authentic; every lookup file written to the cache carries the genuine record text of its id and a head that opens under the key to a genuine (size, hash); every tile file written is byte-identical to the reference tile of its coordinates; every stored head is validly signed, genuine and not smaller than the one it replaces; no security error is raised in a world with a single log; the fault-free run succeeds everywhere. enum = bounded exhaustive single-fault enumeration over every record x every response of the fault-free run x a fixed fault menu. Non-trivial: a fault was delivered and the delivered bytes differ from the authentic ones; or (fault-free) a history that needed >=3 tiles. Distinct by JSON rendering. honest-concurrent: one log, nothing corrupted; 1-2 clients sharing configuration and cache, 2-3 goroutines each; the record responses of the lookups in flight carry heads of different sizes; every external operation and yield point released by the harness-owned scheduler from generated decisions (the schedule is stored in the case); every lookup must succeed with exactly the record's lines and the write audit must hold. Non-trivial: >=2 distinct head sizes in flight.",
+	pbt.Describe("world = tile height H in {1,2,3,4,8}, a log of N records (go.sum line groups for generated module@version incl. upper-case paths, /go.mod lines and the pair go.sum@database whose prefix matches a line of the tree note), a real Ed25519 server key held only by the harness, the server's head at size S<=N, the client's stored head in {empty, signed head of size s0<=S}, cache prefill in {empty, authentic half, everything}. history = 1-5 lookups (existing, missing, repeated, with and without /go.mod) with optional client restarts sharing config and cache. fault plan = 0-3 faults, each bound to a resource the fault-free run requested (lookup response, tile, cached lookup file, cached tile, stored head) and its n-th occurrence: bit flip, truncation, extension, empty, garbage, I/O error, swap with another authentic resource of the same kind (other record, neighbouring/parent/child tile, same tile other width), stale replay (older genuine head with the record, or a genuine head that does not contain it), dropped signature, duplicated line, forged record with its leaf hash placed in an otherwise genuine level-0 tile, forged chain of recomputed parent tiles up to a generated level. Oracle (ground truth, not the code): a successful lookup returns only lines of the genuine record for that module@version, and exactly those lines when every byte delivered for it was authentic; every lookup file written to the cache carries the genuine record text of its id and a head that opens under the key to a genuine (size, hash); every tile file written is byte-identical to the reference tile of its coordinates; every stored head is validly signed, genuine and not smaller than the one it replaces; no security error is raised in a world with a single log; the fault-free run succeeds everywhere. enum = bounded exhaustive single-fault enumeration over every record x every response of the fault-free run x a fixed fault menu. Non-trivial: a fault was delivered and the delivered bytes differ from the authentic ones; or (fault-free) a history that needed >=3 tiles. Distinct by JSON rendering. honest-concurrent: one log, nothing corrupted; 1-2 clients sharing configuration and cache, 2-3 goroutines each; the record responses of the lookups in flight carry heads of different sizes; every external operation and yield point released by the harness-owned scheduler from generated decisions (the schedule is stored in the case); every lookup must succeed with exactly the record's lines and the write audit must hold. Non-trivial: >=2 distinct head sizes in flight. 40% of the worlds hold twin records (the module proxy.example/<path> at the same version as <path>, so that one record's text contains the other's 'path version ' prefix inside a line); fault kind swap-related answers a lookup, from the network or the cache, with the genuine response of its twin.",
 		"Ed25519 and SHA-256 are sound; the adversary never has the key (forged heads are not generated)", "faults are bound to resources by name and occurrence so that plans do not depend on goroutine scheduling",
 		"a lookup that succeeds with no lines (the server answered with another genuine record) returns nothing unauthenticated and is accepted")
 }
@@ -31,6 +31,7 @@ type step struct {
 }
 
 type c01Case struct {
+	Twins     bool `json:",omitempty"` // the log holds pairs of records for module paths one of which ends in the other, at the same version
 	H, Seed   int
 	N         int64
 	Serve     int64 // server's tree size (<= N)
@@ -122,6 +123,29 @@ func genCase(t *rapid.T) c01Case {
 	nf := []int{0, 1, 1, 1, 1, 2, 3}[rapid.IntRange(0, 6).Draw(t, "nfaults")]
 	for i := 0; i < nf; i++ {
 		c.Faults = append(c.Faults, genFault(t))
+	}
+	c.Twins = gen.Chance(t, 40, "twins")
+	if gen.Chance(t, 4, "twinswap") {
+		// A lookup is answered, from the network or from the cache, with the genuine response for another module
+		// whose path ends in the requested path, at the same version: the requested "path version " prefix occurs
+		// inside that record's lines, not at their start.
+		c.Twins = true
+		k := rapid.Int64Range(0, 3).Draw(t, "twink")
+		if c.N < 7*k+7 {
+			c.N = 7*k + 7 + rapid.Int64Range(0, 20).Draw(t, "twinextra")
+		}
+		c.Serve, c.Stored = c.N, 0
+		mod := 7*k + 3
+		if rapid.Bool().Draw(t, "twinlong") {
+			mod = 7*k + 6 // the longer path is asked for, the shorter one's record is served
+		}
+		c.Steps = []step{{Mod: mod, GoMod: rapid.Bool().Draw(t, "twingomod")}}
+		if rapid.Bool().Draw(t, "twinfromcache") {
+			c.Prefill, c.PrefillTo = 2, c.N
+			c.Faults = []sw.Fault{{Op: "cache", Class: "lookup", Ord: 0, Occ: 0, Kind: "swap-related"}}
+		} else {
+			c.Faults = []sw.Fault{{Op: "remote", Class: "lookup", Ord: 0, Occ: 0, Kind: "swap-related"}}
+		}
 	}
 	if gen.Chance(t, 5, "cachedforgery") {
 		// A forged complete leaf tile sits in the cache. The client first looks up another record of that tile
@@ -264,7 +288,7 @@ func check(c c01Case) pbt.Result {
 		r.Skip = true
 		return r
 	}
-	w := sw.New(sw.Config{H: c.H, NA: c.N, Fork: -1, Seed: int64(c.Seed)})
+	w := sw.New(sw.Config{H: c.H, NA: c.N, Fork: -1, Seed: int64(c.Seed), Twins: c.Twins})
 	// 1. fault-free run: must succeed everywhere (clause d) and defines the resources faults bind to
 	ops0, res0 := run(c, w, nil, nil)
 	for i, x := range res0 {
